@@ -285,6 +285,11 @@ epochLoop:
 				if tx.Slot < int(until) {
 					break epochLoop
 				}
+				if uint64(tx.Slot) >= before {
+					// newer than the requested range (before is exclusive): skip it,
+					// and do not let it count against the limit.
+					continue
+				}
 				sig, err := tx.Signature()
 				if err != nil {
 					return nil, fmt.Errorf("error while getting signature: %w", err)
